@@ -155,5 +155,13 @@ func VH_C39_OneOperation() {
 		c2 := t.Clone()
 		t.ModifyOrAddTag(Tag{Key: key, Value: vhMarker(8)})
 		vhCheckTags(c2, m, "changing the original leaves a clone alone")
+		// both sides grow: an append to one must not land in the other's storage
+		// (a list emptied in place keeps its capacity)
+		t3 := t[0:0]
+		c3 := t3.Clone()
+		c3.AddTag(Tag{Key: "zz1", Value: vhMarker(7)})
+		t3.AddTag(Tag{Key: "zz2", Value: vhMarker(6)})
+		vAssert(len(c3) == 1 && c3[0].Key == "zz1" && c3[0].Value.AnyExpression == vhMarker(7).AnyExpression, "appending to the original leaves a clone of an emptied list alone")
+		vAssert(len(t3) == 1 && t3[0].Key == "zz2", "appending to a clone leaves the emptied original alone")
 	}
 }
